@@ -254,7 +254,7 @@ def run_shard(shard):
             # (quick) states reached by one xarray-related event are also
             # expanded over every event: an import-time side effect of any
             # submodule that depends on xarray being loaded first shows there
-            full = tier != "quick" or level == 0 or (len(h) == 1 and h[0] in ("import:xarray", "import:dask_array._xarray", "register_via_private"))
+            full = tier != "quick" or level == 0 or (len(h) == 1 and h[0] == "import:xarray")
             level_evs = evs if full else core
             for c0 in range(0, len(level_evs), 24):
                 jobs.append((h, level_evs[c0:c0 + 24]))
